@@ -53,6 +53,7 @@ func (bucket *Bucket) Close(_ context.Context) {
 
 	unregisterBucket(bucket)
 
+	verifLock(bucket.mutex, "close.mid")
 	bucket.mutex.Lock()
 	defer bucket.mutex.Unlock()
 
@@ -73,6 +74,7 @@ func (bucket *Bucket) _closeSqliteDB() {
 
 // Closes a bucket and deletes its directory and files (unless it's in-memory.)
 func (bucket *Bucket) CloseAndDelete(ctx context.Context) (err error) {
+	verifLock(bucket.mutex, "closedelete")
 	bucket.mutex.Lock()
 	defer bucket.mutex.Unlock()
 	bucket._closeSqliteDB()
@@ -190,6 +192,7 @@ func (bucket *Bucket) _getCollectionID(scope, collection string) (id CollectionI
 }
 
 func (bucket *Bucket) createCollection(name sgbucket.DataStoreNameImpl) (*Collection, error) {
+	verifLock(bucket.mutex, "coll.create")
 	bucket.mutex.Lock()
 	defer bucket.mutex.Unlock()
 
@@ -220,6 +223,7 @@ func (bucket *Bucket) getCollection(name sgbucket.DataStoreNameImpl) (*Collectio
 }
 
 func (bucket *Bucket) getOrCreateCollection(name sgbucket.DataStoreNameImpl, orCreate bool) (*Collection, error) {
+	verifLock(bucket.mutex, "coll.get")
 	bucket.mutex.Lock()
 	defer bucket.mutex.Unlock()
 
@@ -242,6 +246,7 @@ func (bucket *Bucket) getOrCreateCollection(name sgbucket.DataStoreNameImpl, orC
 }
 
 func (bucket *Bucket) getOpenCollectionByID(id CollectionID) *Collection {
+	verifLock(bucket.mutex, "coll.byid")
 	bucket.mutex.Lock()
 	defer bucket.mutex.Unlock()
 
@@ -280,6 +285,7 @@ func (bucket *Bucket) dropCollection(name sgbucket.DataStoreNameImpl) error {
 		return errors.New("default collection cannot be dropped")
 	}
 
+	verifLock(bucket.mutex, "coll.drop")
 	bucket.mutex.Lock()
 	defer bucket.mutex.Unlock()
 
